@@ -185,6 +185,76 @@ def c07_obligations(tier):
     return obs
 
 
+def c12_span_agrees():
+    """Textgrid.eraseRegion's new maxTimestamp and the new maxTimestamp of its tiers are the
+    same binary64 number (otherwise validate() is False after shrinking)"""
+    import z3
+    from engine import ksmt
+    from praatio.data_classes.textgrid import Textgrid
+    from praatio.data_classes.point_tier import PointTier
+
+    start, end, M = [z3.FP(n, ksmt.F64) for n in ("start", "end", "M")]
+    # textgrid side: statements of Textgrid.eraseRegion before the result object is built
+    fdef = ksmt.func_ast(Textgrid.eraseRegion)
+    stmts = []
+    for st in fdef.body:
+        if isinstance(st, ast.Assign) and "Textgrid(" in ast.unparse(st.value):
+            break
+        stmts.append(st)
+    if not stmts:
+        raise ksmt.AnchorMissing("statements before `newTG = Textgrid(...)` in Textgrid.eraseRegion")
+
+    def env_tg():
+        return {"start": start, "end": end, "doShrink": True, "self": ksmt.Rec(["minTimestamp", "maxTimestamp"], minTimestamp=0.0, maxTimestamp=M), "errors": errors}
+
+    tg_paths = [(pc, env) for pc, env, oc in ksmt.explore(stmts, env_tg) if oc[0] == "fall"]
+    # tier side: `diff = ...` and `newMax = ...` of the doShrink blocks
+    outs = []
+    for cls in (IntervalTier, PointTier):
+        f = ksmt.func_ast(cls.eraseRegion)
+        blk = None
+        for n in ast.walk(f):
+            if isinstance(n, ast.If) and ast.unparse(n.test).replace(" ", "") in ("doShrinkisTrue", "doShrink"):
+                blk = n
+        if blk is None:
+            raise ksmt.AnchorMissing("doShrink block in %s.eraseRegion" % cls.__name__)
+        asg = [st for st in ast.walk(blk) if isinstance(st, ast.Assign) and len(st.targets) == 1 and isinstance(st.targets[0], ast.Name) and st.targets[0].id in ("diff", "newMax")]
+        asg.sort(key=lambda st: st.lineno)
+
+        def env_t():
+            return {"start": start, "end": end, "newTier": ksmt.Rec(["maxTimestamp"], maxTimestamp=M), "self": ksmt.Rec(["maxTimestamp"], maxTimestamp=M)}
+
+        for pc, env, oc in ksmt.explore(asg, env_t):
+            if "newMax" not in env:
+                raise ksmt.AnchorMissing("newMax in %s.eraseRegion" % cls.__name__)
+            outs.append((cls.__name__, pc, env["newMax"]))
+    assume = [z3.fpLEQ(ksmt.fpv(0.0), start), z3.fpLT(start, end), z3.fpLEQ(end, M), z3.fpLEQ(M, ksmt.fpv(TWO20))]
+    claims = []
+    for pc, env in tg_paths:
+        for name, pc2, nm in outs:
+            claims.append((pc + pc2, z3.Not(z3.fpEQ(ksmt.to_fp(env["maxTimestamp"]), ksmt.to_fp(nm)))))
+    return _solve(claims, {"start": start, "end": end, "M": M}, assume, 120)
+
+
+def c12_span_replay(start, end, M):
+    from praatio.data_classes.textgrid import Textgrid
+    from praatio.data_classes.point_tier import PointTier
+
+    tg = Textgrid(0.0, M)
+    tg.addTier(IntervalTier("i", [], 0.0, M))
+    tg.addTier(PointTier("p", [], 0.0, M))
+    r = tg.eraseRegion(start, end, True)
+    for t in r.tiers:
+        if t.maxTimestamp != r.maxTimestamp:
+            return "tier span %r differs from the textgrid span %r after shrinking" % (t.maxTimestamp, r.maxTimestamp)
+    return True if r.validate("silence") else "validate() is False"
+
+
+def c12_obligations(tier):
+    return [Ob("fp-tgerase-span-agrees", F("start", "end", "M"), c12_span_replay, kind="smt", smt=_guard(c12_span_agrees), timeout=400,
+               funcs=["Textgrid.eraseRegion / IntervalTier.eraseRegion / PointTier.eraseRegion (span arithmetic sliced from the AST)"], bounds="binary64, 0 <= start < end <= M <= 2^20")]
+
+
 # ----------------------------------------------------------------------------- C08
 def _unroll(loop, names):
     """loop body repeated once per name, with the loop target bound to that name first"""
